@@ -154,6 +154,7 @@ def evaluate(seed_id, props, tier, inplace, jobs):
     results = {}
     env = dict(os.environ)
     env["VERIF_JOBS"] = str(jobs)
+    env["VERIF_EVIDENCE_SCRATCH"] = "1"   # a run against a seeded change is not evidence about /repo
     if inplace:
         rc, o = sh("git -C /repo apply %s" % patch)
         if rc != 0:
